@@ -290,7 +290,35 @@ def install_tls(e):
         conds.append(z3.BoolVal(len(lv) + len(ld) <= 1))
         conds.append(z3.Implies(cr == CERT_NONE, z3.BoolVal(not lv and not ld)))
         conds.append(z3.Implies(cr != CERT_NONE, z3.BoolVal(len(lv) + len(ld) == 1)))
+        # a CA file / directory given by the caller is the one loaded (the bundle variable only fills in what the caller left open)
+        for key, kwname in (("ca_certs", "cafile"), ("ca_cert_path", "capath")):
+            p_u, v_u = uget(c, old, a, key)
+            if v_u is None:
+                continue
+            un, ut = opt_str(v_u)
+            user_set = z3.And(B(p_u), z3.Not(un), z3.Length(ut) > 0)
+            if lv:
+                gn, gt = opt_str(c.force(lv[0][2].get(kwname)))
+                conds.append(z3.Implies(user_set, z3.And(z3.Not(gn), gt == ut)))
+            else:
+                conds.append(z3.Implies(z3.And(cr != CERT_NONE, user_set), z3.BoolVal(False)))
         return z3.And(*conds)
+
+    def opt_str(v):
+        """(is None, string term) of a possibly lazy optional str value."""
+        from pyvc.values import IteV
+        if isinstance(v, IteV):
+            an, at_ = opt_str(v.a)
+            bn, bt = opt_str(v.b)
+            return z3.If(v.cond, an, bn), z3.If(v.cond, at_, bt)
+        if isinstance(v, OptV):
+            n_, t_ = opt_str(v.val)
+            return z3.Or(v.isnone, n_), t_
+        if v is None:
+            return z3.BoolVal(True), z3.StringVal("")
+        if isinstance(v, str):
+            return z3.BoolVal(False), z3.StringVal(v)
+        return z3.BoolVal(False), z(v)
     TLS_EXC = [_ssl.SSLError, OSError, ValueError]
     e.add(Contract(H + "_ssl_socket", cases=[("verification-keys", ssl_case(False, "verification-keys")), ("other-keys", ssl_case(False, "other-keys")),
                                              ("all-keys-present", ssl_case(False, "all-present")),
@@ -368,6 +396,7 @@ def install_tunnel_connect(e):
     def gai_res(c, a):
         args = a["$args"]
         c.ghost["$resolved"] = (args[0], args[1])
+        c.ghost["$resolved_how"] = tuple(args[2:5])
         n = c.fresh("int", "n_addresses")
         c.assume(n.t >= 0)
         return addrinfo_seq(c, n)
@@ -404,7 +433,11 @@ def install_tunnel_connect(e):
         direct = z3.And(same(rs[0], a["hostname"]), same(rs[1], a["port"]), z3.Not(z(tunnel, "bool")), zn(auth))
         proxied = z3.And(same(rs[0], phost), z(rs[1], "int") == pport_eff if tag_of(rs[1]) in ("int", "bool") else z3.BoolVal(False),
                          z(tunnel, "bool"), same(auth, pauth))
-        return z3.If(via, proxied, direct)
+        # every address family (IPv4 and IPv6 literals and names alike), stream sockets over TCP
+        how = c.ghost.get("$resolved_how", ())
+        lit = lambda v: v if isinstance(v, int) and not isinstance(v, bool) else None
+        how_ok = len(how) == 3 and lit(how[0]) == 0 and lit(how[1]) == int(_socket.SOCK_STREAM) and lit(how[2]) == int(_socket.SOL_TCP)
+        return z3.And(z3.If(via, proxied, direct), z3.BoolVal(bool(how_ok)))
     e.add(Contract(H + "_get_addrinfo_list", cases=[("no-proxy-option", gal_case("none")), ("proxy-option", gal_case("option"))], ensures=gal_post,
                    result=lambda c, a: (addrinfo_seq(c, c.fresh("int", "n_addresses")), c.fresh("bool", "need_tunnel"), c.fresh(("opt", ("tuple", ["str", "str"])), "auth")),
                    havoc=lambda c, a, old, k: None,
